@@ -1,49 +1,716 @@
+//! C15 runner (`sm` engine): drives the REAL TabletsInfo / TableTablets / RawTablet code through
+//! hook H6 (`scylla::routing::locator::verif_tablets`) with whole histories of operations and
+//! records, after every step, the complete observable state of the watched tables: flags, the
+//! tablet list (ranges, replicas, unresolved replicas) and the three lookups for every watched token.
+//!
+//! One case line = one history:
+//!   H <tables> <tokens> <dcs> <op> <op> ... | <obs step 1> <obs step 2> ...
+//! tables  ks.tb,ks.tb            (hex)            watched tables
+//! tokens  t,t,...                (signed hex)     watched tokens
+//! dcs     d,d,...                (hex)            watched datacenters
+//! op      L/<ks>.<tb>/<a>/<b>/<h>.<shard>,.. | -/<known nodes>
+//!         M/<keyspaces>/<removed hosts>/<current nodes>/<recreated nodes>
+//!   node      <host>.<gen>.<dc|n>         keyspace  <ks>:<0|1>:<t+t|->:<v+v|->
+//! obs     <res>~<info flag>~<table>~<table>...    res: a<unresolved> | rWrongTokenRange | rShardNum | m | panic
+//!   table   A | <flag>[<tablet>;...]@<lookup>@<lookup>...
+//!   tablet  <first>:<last>:<replicas>:<failed|n>      replica <host>.<gen>.<dc|n>.<shard>
+//!   lookup  n | <first>:<last>:<all>:<dc list>/<dc list>...
+use bytes::Bytes;
 use scylla::cluster::verif_node::node_without_pool;
 use scylla::cluster::{Node, NodeAddr};
-use scylla::routing::locator::verif_tablets::*;
-use std::collections::{HashMap, HashSet};
+use scylla::routing::locator::verif_tablets::{KeyspaceDesc, Replica, TabletView, VerifTablets};
+use std::collections::{BTreeSet, HashMap, HashSet, VecDeque};
+use std::fmt::Write as _;
 use std::sync::Arc;
 use uuid::Uuid;
 use vh::*;
 
-fn node(h: u128, dc: Option<&str>, g: u32) -> Arc<Node> {
-    Arc::new(node_without_pool(
-        Uuid::from_u128(h),
-        NodeAddr::Translatable(std::net::SocketAddr::from(([255, 255, 255, 255], 0))),
-        dc.map(|s| s.to_string()),
-        Some(format!("g{}", g)),
-    ))
+const PAYLOAD_KEY: &str = "tablets-routing-v1";
+
+// ---------------------------------------------------------------- operations
+
+#[derive(Clone, Debug, PartialEq, Eq, Hash)]
+struct NodeD {
+    host: u128,
+    generation: u32,
+    dc: Option<u32>,
 }
-fn map(ns: &[&Arc<Node>]) -> HashMap<Uuid, Arc<Node>> {
-    ns.iter().map(|n| (n.host_id, Arc::clone(n))).collect()
+#[derive(Clone, Debug)]
+struct KsD {
+    ks: u32,
+    tablet_based: bool,
+    tables: Vec<u32>,
+    views: Vec<u32>,
 }
-fn main() {
-    quiet_panics();
-    let ks = vec![KeyspaceDesc { name: "ks".into(), tablet_based: true, tables: vec!["t".into()], views: vec![] }];
-    // probe 1: DC change of a recreated node
-    let mut v = VerifTablets::new();
-    let x = node(1, Some("A"), 0);
-    let y = node(2, Some("A"), 0);
-    let known = map(&[&x, &y]);
-    v.learn_raw("ks", "t", 0, 10, &[(x.host_id, 0), (y.host_id, 1)], &known);
-    let x2 = node(1, Some("B"), 1);
-    let cur = map(&[&x2, &y]);
-    let rec = map(&[&x2]);
-    v.perform_maintenance(&ks, &HashSet::new(), &cur, &rec);
-    for dc in ["A", "B"] {
-        let r = v.dc_replicas_for_token("ks", "t", 5, dc).unwrap().unwrap();
-        println!("dc {} -> {:?}", dc, r.iter().map(|(n, s)| (n.host_id.as_u128(), n.datacenter.clone(), n.rack.clone(), *s)).collect::<Vec<_>>());
+#[derive(Clone, Debug)]
+enum Op {
+    Learn { ks: u32, tb: u32, a: i64, b: i64, raw: Vec<(u128, i32)>, known: Vec<NodeD> },
+    Maintain { kss: Vec<KsD>, removed: Vec<u128>, current: Vec<NodeD>, recreated: Vec<NodeD> },
+}
+
+fn join<T>(xs: &[T], sep: &str, f: impl Fn(&T) -> String) -> String {
+    if xs.is_empty() {
+        "-".into()
+    } else {
+        xs.iter().map(f).collect::<Vec<_>>().join(sep)
     }
-    // probe 2: unknown replica resolved in the same refresh that recreates another replica
+}
+fn dc_s(d: &Option<u32>) -> String {
+    match d {
+        Some(d) => hex_u(*d as u128),
+        None => "n".into(),
+    }
+}
+fn node_s(n: &NodeD) -> String {
+    format!("{}.{}.{}", hex_u(n.host), hex_u(n.generation as u128), dc_s(&n.dc))
+}
+fn op_s(o: &Op) -> String {
+    match o {
+        Op::Learn { ks, tb, a, b, raw, known } => format!(
+            "L/{}.{}/{}/{}/{}/{}",
+            hex_u(*ks as u128),
+            hex_u(*tb as u128),
+            hex_i(*a as i128),
+            hex_i(*b as i128),
+            join(raw, ",", |(h, s)| format!("{}.{}", hex_u(*h), hex_i(*s as i128))),
+            join(known, ",", node_s)
+        ),
+        Op::Maintain { kss, removed, current, recreated } => format!(
+            "M/{}/{}/{}/{}",
+            join(kss, ",", |k| format!(
+                "{}:{}:{}:{}",
+                hex_u(k.ks as u128),
+                k.tablet_based as u8,
+                join(&k.tables, "+", |t| hex_u(*t as u128)),
+                join(&k.views, "+", |t| hex_u(*t as u128))
+            )),
+            join(removed, ",", |h| hex_u(*h)),
+            join(current, ",", node_s),
+            join(recreated, ",", node_s)
+        ),
+    }
+}
+
+fn p_u(s: &str) -> u128 {
+    u128::from_str_radix(s, 16).expect("hex")
+}
+fn p_i(s: &str) -> i128 {
+    if let Some(r) = s.strip_prefix('-') { -(p_u(r) as i128) } else { p_u(s) as i128 }
+}
+fn p_list<'a>(s: &'a str, sep: char) -> Vec<&'a str> {
+    if s == "-" { vec![] } else { s.split(sep).collect() }
+}
+fn p_dc(s: &str) -> Option<u32> {
+    if s == "n" { None } else { Some(p_u(s) as u32) }
+}
+fn p_node(s: &str) -> NodeD {
+    let f: Vec<&str> = s.split('.').collect();
+    NodeD { host: p_u(f[0]), generation: p_u(f[1]) as u32, dc: p_dc(f[2]) }
+}
+fn p_op(s: &str) -> Op {
+    let f: Vec<&str> = s.split('/').collect();
+    match f[0] {
+        "L" => {
+            let kt: Vec<&str> = f[1].split('.').collect();
+            Op::Learn {
+                ks: p_u(kt[0]) as u32,
+                tb: p_u(kt[1]) as u32,
+                a: p_i(f[2]) as i64,
+                b: p_i(f[3]) as i64,
+                raw: p_list(f[4], ',')
+                    .iter()
+                    .map(|x| {
+                        let (h, s) = x.split_once('.').unwrap();
+                        (p_u(h), p_i(s) as i32)
+                    })
+                    .collect(),
+                known: p_list(f[5], ',').iter().map(|x| p_node(x)).collect(),
+            }
+        }
+        "M" => Op::Maintain {
+            kss: p_list(f[1], ',')
+                .iter()
+                .map(|x| {
+                    let g: Vec<&str> = x.split(':').collect();
+                    KsD {
+                        ks: p_u(g[0]) as u32,
+                        tablet_based: g[1] == "1",
+                        tables: p_list(g[2], '+').iter().map(|t| p_u(t) as u32).collect(),
+                        views: p_list(g[3], '+').iter().map(|t| p_u(t) as u32).collect(),
+                    }
+                })
+                .collect(),
+            removed: p_list(f[2], ',').iter().map(|x| p_u(x)).collect(),
+            current: p_list(f[3], ',').iter().map(|x| p_node(x)).collect(),
+            recreated: p_list(f[4], ',').iter().map(|x| p_node(x)).collect(),
+        },
+        _ => panic!("bad op {}", s),
+    }
+}
+
+// ---------------------------------------------------------------- running a history on the real code
+
+/// Node objects of one history: one Arc per distinct (host, gen, dc) triple, so that Arc::ptr_eq
+/// in the code is equality of triples in the model. The generation is stored in the rack field.
+struct Nodes {
+    cache: HashMap<NodeD, Arc<Node>>,
+}
+impl Nodes {
+    fn get(&mut self, d: &NodeD) -> Arc<Node> {
+        self.cache
+            .entry(d.clone())
+            .or_insert_with(|| {
+                Arc::new(node_without_pool(
+                    Uuid::from_u128(d.host),
+                    NodeAddr::Translatable(std::net::SocketAddr::from(([255, 255, 255, 255], 0))),
+                    d.dc.map(|x| format!("dc{:x}", x)),
+                    Some(format!("g{:x}", d.generation)),
+                ))
+            })
+            .clone()
+    }
+    fn map(&mut self, l: &[NodeD]) -> HashMap<Uuid, Arc<Node>> {
+        let mut m = HashMap::new();
+        for d in l {
+            // first entry wins, as in the model's association lists
+            let n = self.get(d);
+            m.entry(n.host_id).or_insert(n);
+        }
+        m
+    }
+}
+
+/// The payload bytes ScyllaDB sends: tuple<bigint, bigint, list<tuple<uuid, int>>> without the outer length.
+fn payload_bytes(a: i64, b: i64, raw: &[(u128, i32)]) -> Vec<u8> {
+    let mut v = Vec::new();
+    v.extend_from_slice(&8i32.to_be_bytes());
+    v.extend_from_slice(&a.to_be_bytes());
+    v.extend_from_slice(&8i32.to_be_bytes());
+    v.extend_from_slice(&b.to_be_bytes());
+    let mut l = Vec::new();
+    l.extend_from_slice(&(raw.len() as i32).to_be_bytes());
+    for (h, s) in raw {
+        let mut e = Vec::new();
+        e.extend_from_slice(&16i32.to_be_bytes());
+        e.extend_from_slice(&h.to_be_bytes());
+        e.extend_from_slice(&4i32.to_be_bytes());
+        e.extend_from_slice(&s.to_be_bytes());
+        l.extend_from_slice(&(e.len() as i32).to_be_bytes());
+        l.extend_from_slice(&e);
+    }
+    v.extend_from_slice(&(l.len() as i32).to_be_bytes());
+    v.extend_from_slice(&l);
+    v
+}
+
+fn rep_s(r: &Replica) -> String {
+    let n = &r.0;
+    let g = n.rack.as_deref().and_then(|x| x.strip_prefix('g')).map(|x| x.to_string()).unwrap_or("?".into());
+    let d = match n.datacenter.as_deref() {
+        None => "n".to_string(),
+        Some(x) => x.strip_prefix("dc").unwrap_or("?").to_string(),
+    };
+    format!("{}.{}.{}.{}", hex_u(n.host_id.as_u128()), g, d, hex_u(r.1 as u128))
+}
+fn reps_s(l: &[Replica]) -> String {
+    join(l, ",", rep_s)
+}
+fn tablet_s(t: &TabletView) -> String {
+    format!(
+        "{}:{}:{}:{}",
+        hex_i(t.first as i128),
+        hex_i(t.last as i128),
+        reps_s(&t.all),
+        match &t.failed {
+            None => "n".to_string(),
+            Some(f) => join(f, ",", |(u, s)| format!("{}.{}", hex_u(u.as_u128()), hex_u(*s as u128))),
+        }
+    )
+}
+
+fn observe(v: &VerifTablets, res: &str, tables: &[(u32, u32)], tokens: &[i64], dcs: &[u32]) -> String {
+    let mut s = String::new();
+    write!(s, "{}~{}", res, v.info_has_unknown_replicas() as u8).unwrap();
+    for (ks, tb) in tables {
+        let (ksn, tbn) = (format!("ks{:x}", ks), format!("t{:x}", tb));
+        match v.table_view(&ksn, &tbn) {
+            None => s.push_str("~A"),
+            Some((flag, list)) => {
+                write!(s, "~{}[{}]", flag as u8, list.iter().map(tablet_s).collect::<Vec<_>>().join(";")).unwrap();
+                for tok in tokens {
+                    let t = v.tablet_for_token(&ksn, &tbn, *tok).unwrap();
+                    let all = v.replicas_for_token(&ksn, &tbn, *tok).unwrap();
+                    match (t, all) {
+                        (None, None) => s.push_str("@n"),
+                        (Some(t), Some(all)) => {
+                            write!(s, "@{}:{}:{}:", hex_i(t.first as i128), hex_i(t.last as i128), reps_s(&all)).unwrap();
+                            let per: Vec<String> = dcs
+                                .iter()
+                                .map(|d| match v.dc_replicas_for_token(&ksn, &tbn, *tok, &format!("dc{:x}", d)).unwrap() {
+                                    Some(l) => reps_s(&l),
+                                    None => "?".into(),
+                                })
+                                .collect();
+                            s.push_str(&per.join("/"));
+                        }
+                        _ => s.push_str("@inconsistent"),
+                    }
+                }
+            }
+        }
+    }
+    s
+}
+
+struct Hist {
+    tables: Vec<(u32, u32)>,
+    tokens: Vec<i64>,
+    dcs: Vec<u32>,
+    ops: Vec<Op>,
+}
+fn hist_s(h: &Hist) -> String {
+    let mut s = format!(
+        "H {} {} {}",
+        join(&h.tables, ",", |(k, t)| format!("{}.{}", hex_u(*k as u128), hex_u(*t as u128))),
+        join(&h.tokens, ",", |t| hex_i(*t as i128)),
+        join(&h.dcs, ",", |d| hex_u(*d as u128))
+    );
+    for o in &h.ops {
+        s.push(' ');
+        s.push_str(&op_s(o));
+    }
+    s
+}
+fn p_hist(case: &str) -> Hist {
+    let f: Vec<&str> = case.split_whitespace().collect();
+    assert!(f[0] == "H");
+    Hist {
+        tables: p_list(f[1], ',')
+            .iter()
+            .map(|x| {
+                let (k, t) = x.split_once('.').unwrap();
+                (p_u(k) as u32, p_u(t) as u32)
+            })
+            .collect(),
+        tokens: p_list(f[2], ',').iter().map(|x| p_i(x) as i64).collect(),
+        dcs: p_list(f[3], ',').iter().map(|x| p_u(x) as u32).collect(),
+        ops: f[4..].iter().map(|x| p_op(x)).collect(),
+    }
+}
+
+/// Apply one op to the real code. Returns the result tag, or None when the call panicked.
+fn apply(v: &mut VerifTablets, nodes: &mut Nodes, o: &Op) -> Option<String> {
+    match o {
+        Op::Learn { ks, tb, a, b, raw, known } => {
+            let known = nodes.map(known);
+            let payload: HashMap<String, Bytes> =
+                HashMap::from([(PAYLOAD_KEY.to_string(), Bytes::from(payload_bytes(*a, *b, raw)))]);
+            let (ksn, tbn) = (format!("ks{:x}", ks), format!("t{:x}", tb));
+            let r = catch(std::panic::AssertUnwindSafe(|| v.learn_from_payload(&ksn, &tbn, &payload, &known)));
+            match r {
+                Err(_) => None,
+                Ok(None) => Some("none".into()),
+                Ok(Some(Ok(n))) => Some(format!("a{:x}", n)),
+                Ok(Some(Err(e))) => Some(format!("r{}", e)),
+            }
+        }
+        Op::Maintain { kss, removed, current, recreated } => {
+            let kss: Vec<KeyspaceDesc> = kss
+                .iter()
+                .map(|k| KeyspaceDesc {
+                    name: format!("ks{:x}", k.ks),
+                    tablet_based: k.tablet_based,
+                    tables: k.tables.iter().map(|t| format!("t{:x}", t)).collect(),
+                    views: k.views.iter().map(|t| format!("t{:x}", t)).collect(),
+                })
+                .collect();
+            let removed: HashSet<Uuid> = removed.iter().map(|h| Uuid::from_u128(*h)).collect();
+            let current = nodes.map(current);
+            let recreated = nodes.map(recreated);
+            let r = catch(std::panic::AssertUnwindSafe(|| v.perform_maintenance(&kss, &removed, &current, &recreated)));
+            match r {
+                Err(_) => None,
+                Ok(()) => Some("m".into()),
+            }
+        }
+    }
+}
+
+/// Runs the history on a fresh TabletsInfo; one observation per step; stops after a panic.
+fn run_hist(h: &Hist) -> (String, Vec<Vec<(i64, i64)>>) {
     let mut v = VerifTablets::new();
-    let x = node(1, Some("A"), 0);
-    let known = map(&[&x]);
-    let unresolved = v.learn_raw("ks", "t", 0, 10, &[(x.host_id, 0), (Uuid::from_u128(2), 1)], &known);
-    println!("unresolved={}", unresolved);
-    let x2 = node(1, Some("A"), 1);
-    let u = node(2, Some("A"), 0);
-    let cur = map(&[&x2, &u]);
-    let rec = map(&[&x2]);
-    let r = catch(std::panic::AssertUnwindSafe(move || { v.perform_maintenance(&ks, &HashSet::new(), &cur, &rec); v }));
-    match r { Ok(_) => println!("probe2: no panic"), Err(e) => println!("probe2: PANIC {}", e) }
+    let mut nodes = Nodes { cache: HashMap::new() };
+    let mut obs = Vec::new();
+    let mut ranges = Vec::new();
+    for o in &h.ops {
+        match apply(&mut v, &mut nodes, o) {
+            None => {
+                obs.push("panic".to_string());
+                break;
+            }
+            Some(res) => {
+                obs.push(observe(&v, &res, &h.tables, &h.tokens, &h.dcs));
+                if let Some((ks, tb)) = h.tables.first() {
+                    ranges.push(
+                        v.table_view(&format!("ks{:x}", ks), &format!("t{:x}", tb))
+                            .map(|(_, l)| l.iter().map(|t| (t.first, t.last)).collect())
+                            .unwrap_or_default(),
+                    );
+                }
+            }
+        }
+    }
+    (if obs.is_empty() { "-".into() } else { obs.join(" ") }, ranges)
+}
+
+// ---------------------------------------------------------------- generators
+
+/// the 8-point universe of the exhaustive part: payload bounds a < b are taken from it, so the
+/// tablets are [a+1, b]: single-token tablets, touching tablets, tablets ending at i64::MAX and
+/// starting at i64::MIN + 1 all occur.
+const P8: [i64; 8] = [i64::MIN, i64::MIN + 1, -1, 0, 1, 5, i64::MAX - 1, i64::MAX];
+const Q8: [i64; 16] = [
+    i64::MIN, i64::MIN + 1, i64::MIN + 2, -2, -1, 0, 1, 2, 3, 5, 6, 7, i64::MAX - 2, i64::MAX - 1, i64::MAX, 4,
+];
+
+fn nd(host: u128, generation: u32, dc: Option<u32>) -> NodeD {
+    NodeD { host, generation, dc }
+}
+fn schema_all() -> Vec<KsD> {
+    vec![KsD { ks: 1, tablet_based: true, tables: vec![1, 2], views: vec![3] }]
+}
+
+/// Exhaustive part: breadth-first over EVERY range set reachable in the 8-point universe (keyed by
+/// the implementation's own range list); from every reachable set every one of the 28 inserts is
+/// tried, followed by a maintenance step removing node 1 and a re-insert. One line per
+/// (reachable set, insert).
+fn gen_exhaustive(out: &mut Out, limit_states: usize) -> (usize, usize) {
+    let known = vec![nd(1, 0, Some(0)), nd(2, 0, Some(1))];
+    let mut letters: Vec<Op> = Vec::new();
+    for i in 0..8 {
+        for j in (i + 1)..8 {
+            letters.push(Op::Learn {
+                ks: 1,
+                tb: 1,
+                a: P8[i],
+                b: P8[j],
+                raw: vec![(((i + j) % 2 + 1) as u128, ((i * 8 + j) % 5) as i32)],
+                known: known.clone(),
+            });
+        }
+    }
+    let maint = Op::Maintain { kss: schema_all(), removed: vec![1], current: vec![nd(2, 0, Some(1))], recreated: vec![] };
+    let mut seen: HashMap<Vec<(i64, i64)>, ()> = HashMap::new();
+    let mut queue: VecDeque<Vec<Op>> = VecDeque::new();
+    seen.insert(vec![], ());
+    queue.push_back(vec![]);
+    let mut lines = 0;
+    while let Some(prefix) = queue.pop_front() {
+        for l in &letters {
+            let mut ops = prefix.clone();
+            ops.push(l.clone());
+            let n_pref = ops.len();
+            ops.push(maint.clone());
+            ops.push(l.clone());
+            let h = Hist { tables: vec![(1, 1)], tokens: Q8.to_vec(), dcs: vec![0, 1], ops };
+            let (o, ranges) = run_hist(&h);
+            out.case(&hist_s(&h), &o);
+            lines += 1;
+            if ranges.len() >= n_pref {
+                let st = ranges[n_pref - 1].clone();
+                if !seen.contains_key(&st) && seen.len() < limit_states {
+                    seen.insert(st, ());
+                    queue.push_back(h.ops[..n_pref].to_vec());
+                }
+            }
+        }
+    }
+    (seen.len(), lines)
+}
+
+/// Short exhaustive histories with invalid payloads and schema maintenance in the alphabet.
+fn gen_exhaustive_short(out: &mut Out, len: usize) -> usize {
+    let known = vec![nd(1, 0, Some(0)), nd(2, 0, Some(1))];
+    let pts = [i64::MIN, -1, 0, i64::MAX - 1, i64::MAX];
+    let mut letters: Vec<Op> = Vec::new();
+    for i in 0..pts.len() {
+        for j in 0..pts.len() {
+            if i < j || (i == j && i % 2 == 0) || (i == j + 1 && j == 0) {
+                letters.push(Op::Learn {
+                    ks: 1,
+                    tb: 1,
+                    a: pts[i],
+                    b: pts[j],
+                    raw: vec![(((i + j) % 3 + 1) as u128, (j as i32) - if i == 1 && j == 4 { 9 } else { 0 })],
+                    known: known.clone(),
+                });
+            }
+        }
+    }
+    letters.push(Op::Maintain { kss: schema_all(), removed: vec![], current: vec![nd(1, 0, Some(0)), nd(2, 0, Some(1)), nd(3, 0, None)], recreated: vec![] });
+    letters.push(Op::Maintain { kss: schema_all(), removed: vec![2], current: vec![nd(1, 0, Some(0))], recreated: vec![] });
+    letters.push(Op::Maintain { kss: vec![], removed: vec![], current: known.clone(), recreated: vec![] });
+    let k = letters.len();
+    let mut idx = vec![0usize; len];
+    let mut lines = 0;
+    loop {
+        let ops: Vec<Op> = idx.iter().map(|i| letters[*i].clone()).collect();
+        let h = Hist { tables: vec![(1, 1)], tokens: vec![i64::MIN, i64::MIN + 1, -1, 0, 1, i64::MAX - 1, i64::MAX], dcs: vec![0, 1], ops };
+        let (o, _) = run_hist(&h);
+        out.case(&hist_s(&h), &o);
+        lines += 1;
+        let mut p = len;
+        loop {
+            if p == 0 {
+                return lines;
+            }
+            p -= 1;
+            idx[p] += 1;
+            if idx[p] < k {
+                break;
+            }
+            idx[p] = 0;
+        }
+    }
+}
+
+/// The cluster as the harness imagines it while generating a random history.
+struct World {
+    known: Vec<NodeD>,       // ClusterState.known_nodes
+    next_gen: u32,
+    schema: Vec<KsD>,
+}
+
+fn gen_bound(r: &mut Rng, small: bool, used: &[i64]) -> i64 {
+    if small {
+        return *r.pick(&P8);
+    }
+    match r.below(10) {
+        0 => *r.pick(&[i64::MIN, i64::MIN + 1, i64::MAX, i64::MAX - 1, 0, -1, 1]),
+        1 | 2 | 3 if !used.is_empty() => {
+            // at or next to a bound already used: touching / containing / one-off relations
+            let u = *r.pick(used);
+            u.saturating_add(r.range(0, 2) as i64 - 1)
+        }
+        4 | 5 => {
+            // ScyllaDB style: ring split into 2^k equal tablets
+            let k = r.range(1, 6);
+            let i = r.below((1 << k) + 1) as i128;
+            let v = (i << (64 - k)) - (1i128 << 63) - if r.chance(1, 3) { 1 } else { 0 };
+            v.clamp(i64::MIN as i128, i64::MAX as i128) as i64
+        }
+        _ => r.i64(),
+    }
+}
+
+fn gen_random_history(r: &mut Rng, len: usize, small: bool, dc_changes: bool) -> Hist {
+    let hosts: Vec<u128> = (1..=6).collect();
+    let dc_of = |h: u128| -> Option<u32> { if h == 6 { None } else { Some((h % 3) as u32) } };
+    let mut w = World {
+        known: hosts.iter().filter(|_| r.chance(3, 4)).map(|h| nd(*h, 0, dc_of(*h))).collect(),
+        next_gen: 1,
+        schema: vec![
+            KsD { ks: 1, tablet_based: true, tables: vec![1, 2], views: vec![3] },
+            KsD { ks: 2, tablet_based: r.chance(1, 2), tables: vec![1], views: vec![] },
+        ],
+    };
+    let mut ops = Vec::new();
+    let mut used: Vec<i64> = Vec::new();
+    let maint_rate = *r.pick(&[3u64, 6, 12, 30]);
+    for _ in 0..len {
+        if r.below(100) < maint_rate {
+            // topology / schema refresh: new known nodes; removed and recreated derived exactly as
+            // ClusterState::perform_tablets_maintenance derives them (old vs new known nodes)
+            let old = w.known.clone();
+            let mut new: Vec<NodeD> = Vec::new();
+            for h in &hosts {
+                let was = old.iter().find(|n| n.host == *h);
+                match was {
+                    Some(n) => {
+                        if r.chance(1, 6) {
+                            continue; // node removed
+                        }
+                        if r.chance(1, 4) {
+                            // Node object recreated (address / rack / datacenter change)
+                            let dc = if dc_changes && r.chance(1, 3) { Some(r.below(3) as u32) } else { n.dc };
+                            new.push(nd(*h, w.next_gen, dc));
+                            w.next_gen += 1;
+                        } else {
+                            new.push(n.clone());
+                        }
+                    }
+                    None => {
+                        if r.chance(1, 2) {
+                            new.push(nd(*h, w.next_gen, dc_of(*h)));
+                            w.next_gen += 1;
+                        }
+                    }
+                }
+            }
+            r.shuffle(&mut new);
+            let mut removed: Vec<u128> = old.iter().filter(|o| !new.iter().any(|n| n.host == o.host)).map(|o| o.host).collect();
+            let mut recreated: Vec<NodeD> = new
+                .iter()
+                .filter(|n| old.iter().any(|o| o.host == n.host && *o != **n))
+                .cloned()
+                .collect();
+            let mut current = new.clone();
+            // a small share of calls with arguments the real caller would not produce (the functions
+            // are total in them): inconsistent current / extra removed / empty current
+            match r.below(40) {
+                0 => current = old.clone(),
+                1 => removed.push(*r.pick(&hosts)),
+                2 => current.clear(),
+                3 => recreated.clear(),
+                _ => {}
+            }
+            // schema changes
+            if r.chance(1, 5) {
+                let k = r.below(2) as usize;
+                match r.below(4) {
+                    0 => w.schema[k].tablet_based = !w.schema[k].tablet_based,
+                    1 => {
+                        let t = r.range(1, 3) as u32;
+                        if let Some(p) = w.schema[k].tables.iter().position(|x| *x == t) {
+                            w.schema[k].tables.remove(p);
+                        } else {
+                            w.schema[k].tables.push(t);
+                        }
+                    }
+                    2 => {
+                        let t = r.range(1, 3) as u32;
+                        if let Some(p) = w.schema[k].views.iter().position(|x| *x == t) {
+                            w.schema[k].views.remove(p);
+                        } else {
+                            w.schema[k].views.push(t);
+                        }
+                    }
+                    _ => {}
+                }
+            }
+            let kss: Vec<KsD> = if r.chance(1, 30) { vec![] } else if r.chance(1, 10) { vec![w.schema[0].clone()] } else { w.schema.clone() };
+            ops.push(Op::Maintain { kss, removed, current, recreated });
+            w.known = new;
+        } else {
+            let (ks, tb) = if r.chance(5, 6) { (1, 1) } else { (*r.pick(&[1u32, 2]), r.range(1, 3) as u32) };
+            let (mut a, mut b) = (gen_bound(r, small, &used), gen_bound(r, small, &used));
+            if r.chance(14, 15) && a > b {
+                std::mem::swap(&mut a, &mut b);
+            }
+            if !small && r.chance(1, 12) {
+                b = a.saturating_add(r.range(0, 2) as i64); // empty / single-token / two-token
+            }
+            used.push(a);
+            used.push(b);
+            let nrep = *r.pick(&[0usize, 1, 1, 2, 2, 3, 3, 4]);
+            let mut raw: Vec<(u128, i32)> = Vec::new();
+            for _ in 0..nrep {
+                // mostly known hosts, sometimes not yet known ones, rarely a host outside the pool
+                let h = if r.chance(1, 25) { 9 } else { *r.pick(&hosts) };
+                let s = if r.chance(1, 40) { -(r.range(1, 3) as i32) } else { r.below(8) as i32 };
+                raw.push((h, s));
+            }
+            ops.push(Op::Learn { ks, tb, a, b, raw, known: w.known.clone() });
+        }
+    }
+    // watched tokens: every bound that occurs and its neighbours (sampled), the extremes, random ones
+    let mut toks: BTreeSet<i64> = BTreeSet::new();
+    for t in [i64::MIN, i64::MIN + 1, i64::MAX, i64::MAX - 1, 0] {
+        toks.insert(t);
+    }
+    if small {
+        for t in Q8 {
+            toks.insert(t);
+        }
+    } else {
+        let want = 28;
+        let mut guard = 0;
+        while toks.len() < want && guard < 400 {
+            guard += 1;
+            if used.is_empty() || r.chance(1, 6) {
+                toks.insert(r.i64());
+            } else {
+                let u = *r.pick(&used);
+                toks.insert(u.saturating_add(r.range(0, 2) as i64 - 1));
+            }
+        }
+    }
+    let tables = if r.chance(1, 2) { vec![(1, 1)] } else { vec![(1, 1), (1, 3), (2, 1)] };
+    Hist { tables, tokens: toks.into_iter().collect(), dcs: vec![0, 1, 2], ops }
+}
+
+/// Histories built to hit the two known findings and their neighbourhood deterministically.
+fn gen_scenarios(out: &mut Out) {
+    let x = nd(1, 0, Some(0));
+    let y = nd(2, 0, Some(0));
+    let u = nd(3, 0, Some(1));
+    let x2 = nd(1, 1, Some(0));
+    let x2b = nd(1, 1, Some(1));
+    let learn = |a: i64, b: i64, raw: Vec<(u128, i32)>, known: Vec<NodeD>| Op::Learn { ks: 1, tb: 1, a, b, raw, known };
+    let scen: Vec<Vec<Op>> = vec![
+        // unknown replica resolved in the refresh that also recreates another replica of the tablet
+        vec![
+            learn(0, 10, vec![(1, 0), (3, 1)], vec![x.clone(), y.clone()]),
+            Op::Maintain { kss: schema_all(), removed: vec![], current: vec![x2.clone(), y.clone(), u.clone()], recreated: vec![x2.clone()] },
+        ],
+        // same, but the unknown replica stays unknown: the tablet is dropped before the swap
+        vec![
+            learn(0, 10, vec![(1, 0), (3, 1)], vec![x.clone(), y.clone()]),
+            Op::Maintain { kss: schema_all(), removed: vec![], current: vec![x2.clone(), y.clone()], recreated: vec![x2.clone()] },
+        ],
+        // recreated node, no unknown replicas: plain swap
+        vec![
+            learn(0, 10, vec![(1, 0), (2, 1)], vec![x.clone(), y.clone()]),
+            Op::Maintain { kss: schema_all(), removed: vec![], current: vec![x2.clone(), y.clone()], recreated: vec![x2.clone()] },
+            learn(10, 20, vec![(1, 0)], vec![x2.clone(), y.clone()]),
+        ],
+        // recreated node whose datacenter changed
+        vec![
+            learn(0, 10, vec![(1, 0), (2, 1)], vec![x.clone(), y.clone()]),
+            Op::Maintain { kss: schema_all(), removed: vec![], current: vec![x2b.clone(), y.clone()], recreated: vec![x2b.clone()] },
+        ],
+        // the repository's own "Case 9": inconsistent current (old object) with a recreated node
+        vec![
+            learn(0, 10, vec![(1, 0), (3, 1)], vec![x.clone(), y.clone()]),
+            Op::Maintain { kss: schema_all(), removed: vec![2], current: vec![x.clone(), u.clone()], recreated: vec![x2.clone()] },
+        ],
+    ];
+    for ops in scen {
+        let h = Hist { tables: vec![(1, 1)], tokens: vec![0, 1, 5, 10, 11, 20, 21], dcs: vec![0, 1, 2], ops };
+        let (o, _) = run_hist(&h);
+        out.case(&hist_s(&h), &o);
+    }
+}
+
+fn main() {
+    let a = parse_args();
+    quiet_panics();
+    let mut out = Out::create(&a.out);
+    if let Some(p) = &a.replay {
+        for c in read_cases(p) {
+            let h = p_hist(&c);
+            let (o, _) = run_hist(&h);
+            out.case(&c, &o);
+        }
+        out.finish();
+        return;
+    }
+    let thorough = a.tier == "thorough";
+    gen_scenarios(&mut out);
+    let (states, lines) = gen_exhaustive(&mut out, if thorough { usize::MAX } else { usize::MAX });
+    eprintln!("c15: exhaustive part: {} reachable range sets, {} histories", states, lines);
+    let short = gen_exhaustive_short(&mut out, if thorough { 4 } else { 3 });
+    eprintln!("c15: short exhaustive histories: {}", short);
+    let mut r = Rng::new(a.seed);
+    for i in 0..a.n {
+        let h = match i % 4 {
+            0 => { let len = r.range(8, 40) as usize; gen_random_history(&mut r, len, true, false) }
+            1 => { let len = r.range(10, 60) as usize; gen_random_history(&mut r, len, false, false) }
+            2 => { let len = r.range(40, 160) as usize; gen_random_history(&mut r, len, false, false) }
+            _ => { let len = r.range(8, 60) as usize; let small = r.bool(); gen_random_history(&mut r, len, small, true) }
+        };
+        let (o, _) = run_hist(&h);
+        out.case(&hist_s(&h), &o);
+    }
+    out.finish();
 }
